@@ -212,6 +212,7 @@ func (c *Conn) clientHandshake(ctx context.Context) (err error) {
 		c.retransmitTimer.reset()
 
 		// 读循环：接收响应，处理超时和对端重传
+	readLoop:
 		for {
 			// 设置读取超时
 			c.pconn.SetReadDeadline(time.Now().Add(c.retransmitTimer.current))
@@ -241,7 +242,7 @@ func (c *Conn) clientHandshake(ctx context.Context) (err error) {
 				hello.raw = nil // 强制重新 marshaling
 				c.handBuf.Reset()
 				c.hsState.Store(int32(stateSending))
-				break
+				break readLoop // leave the read loop (a bare break only leaves the switch)
 
 			case *serverHelloMsg:
 				// Cookie 交换完成
